@@ -369,18 +369,5 @@ def check_readonly(ctx, prog, cg, roots):
 
 
 def pointee_const(ct):
-    """is the outermost pointee of canonical type `ct` const-qualified?
-    'const char *' -> True; 'char *const *' -> True (pointee is 'char *const');
-    'char *' -> False; 'char **' -> False"""
-    ct = ct.strip()
-    if not ct.endswith('*'):
-        # e.g. 'char *const' (a const pointer object): look at what it points to
-        if ct.endswith('*const'):
-            return pointee_const(ct[:-5].strip())
-        return True
-    inner = ct[:-1].strip()
-    if inner.endswith('const'):
-        return True
-    if inner.endswith('*'):
-        return False
-    return inner.startswith('const ')
+    from engine.statics import _pointee_const
+    return _pointee_const(ct)
